@@ -2570,7 +2570,8 @@ class TagCollection(list):
         ret = TagCollection()
 
         for tag in self:
-            ret.append(tag)
+            if ret._hasTag(tag) is False:
+                ret.append(tag)
             ret += tag.getAllChildNodes()
 
         return ret
